@@ -600,6 +600,65 @@ def compProjListI : List Nat → Nat → (Nat → Nat) → (Nat → Nat) → St 
 
 end
 
+/-! ### Round 5: wrappers constructed with a USER temporary (`tmp=`, `tmp_ran=`), and the
+in-place loop of `ProductSpaceOperator` with the row-grouping assumption of seed C03-51
+
+The user temporary `t` is an EXISTING object (part of the operator's state). Only the in-place
+bodies use it; the out-of-place bodies are those of `callO` (`.rscal`, `.comp`, `.sum`).
+Executed by `tree … wrap=rscal|comp|sum` of `Drivers/C03.lean` (content of the temporary
+afterwards included), compared by the `tmpw` lines of the tree stream. -/
+
+section
+variable {K : Type} [Add K] [Mul K]
+
+/-- `OperatorRightScalarMult(operator, scalar, tmp=t)._call(x, out)`:
+`tmp = self.__tmp; tmp.lincomb(self.scalar, x); self.operator(tmp, out=out)`. -/
+def rscalTmpI (jk : Nat → Vec K) (a : Op K) (c : K) (t x y : Nat) (s : St K) : Res K :=
+  callI jk a t y (s.write t (fun i => c * s.mem x i))
+
+/-- `OperatorRightScalarMult.__init__`: "shortcut in case of repeated multiplications" —
+`if isinstance(operator, OperatorRightScalarMult): scalar = scalar * operator.scalar;
+operator = operator.operator`. Visible in what the user temporary holds after a call. -/
+def rscalCtor (a : Op K) (c : K) : Op K × K :=
+  match a with
+  | .rscal a' c' => (a', c * c')
+  | _ => (a, c)
+
+/-- `OperatorComp(left, right, tmp=t)._call(x, out)`, right factor not a functional:
+`tmp = self.__tmp; self.right(x, out=tmp); return self.left(tmp, out=out)`. -/
+def compTmpI (jk : Nat → Vec K) (a b : Op K) (t x y : Nat) (s : St K) : Res K :=
+  (callI jk b x t s).bind fun _ s1 => callI jk a t y s1
+
+/-- `OperatorSum(left, right, tmp_ran=t)._call(x, out)`:
+`tmp = self.__tmp_ran; self.left(x, out=tmp); self.right(x, out=out); out += tmp`. -/
+def sumTmpI (jk : Nat → Vec K) (a b : Op K) (t x y : Nat) (s : St K) : Res K :=
+  (callI jk a x t s).bind fun _ s1 => (callI jk b x y s1).bind fun _ s2 =>
+    .ok y (s2.write y (fun i => s2.mem y i + s2.mem t i))
+
+/-- NOT the code: the out-of-place body of seed C03-52, which also scales into the user
+temporary: `tmp.lincomb(scalar, x); return self.operator(tmp)`. -/
+def rscalTmpBadO (jk : Nat → Vec K) (a : Op K) (c : K) (t x : Nat) (s : St K) : Res K :=
+  callO jk a t (s.write t (fun i => c * s.mem x i))
+
+/-- NOT the code: the in-place loop of seed C03-51, which overwrites `out[i]` whenever the row
+differs from the row of the PREVIOUS entry (`prev`) instead of consulting `has_evaluated_row`. -/
+def psoLoopPrevRow (jk : Nat → Vec K) (x y : Nat → Nat) :
+    List (Entry K) → Option Nat → St K → PRes K
+  | [], _, s => .ok [] s
+  | e :: rest, prev, s =>
+      if prev = some e.row then
+        match callO jk e.op (x e.col) s with
+        | .err er s1 => .err er s1
+        | .ok r s1 =>
+            psoLoopPrevRow jk x y rest (some e.row)
+              (s1.write (y e.row) (fun k => s1.mem (y e.row) k + s1.mem r k))
+      else
+        match callI jk e.op (x e.col) (y e.row) s with
+        | .err er s1 => .err er s1
+        | .ok _ s1 => psoLoopPrevRow jk x y rest (some e.row) s1
+
+end
+
 /-! ### Leaves built from the straight-line programs of `ProxProg` -/
 
 /-- Local view of the store for a program body: buffer 0 is `x`, buffer 1 is `out` (when
